@@ -22,6 +22,7 @@ PLAN = {
     "c10_exc": ["asan"],
     "c20_loc": ["asan"],
     "c11_life": ["asan"],
+    "c07_const": ["asan"],
     "c13_threads": ["tsan"],
 }
 
